@@ -53,6 +53,31 @@ theorem closed_stable (c : Cfg) (st st' : State) (l : Label) (h : step c st l = 
       | (obtain rfl := Option.some.inj h; exact hc)
       | (obtain rfl := Option.some.inj h; simp_all; done)
 
+/-- a receiver that has seen `Finished` stays finished -/
+theorem finished_stable (c : Cfg) (st st' : State) (l : Label) (h : step c st l = some st')
+    (hf : st.r.finished = true) : st'.r.finished = true := by
+  cases l
+  case recvAny =>
+    simp only [step] at h
+    split at h
+    · simp at h
+    · simp [recvAnyStep, hf] at h
+  case recvChunk =>
+    simp only [step] at h
+    split at h
+    · simp at h
+    · split at h
+      · simp at h
+      · simp only [recvChunkStep, hf, if_true] at h
+        (repeat' split at h) <;> first
+          | (simp at h; done)
+          | (obtain rfl := Option.some.inj h; exact hf)
+  all_goals
+    simp only [step] at h
+    (repeat' split at h) <;> first
+      | (simp at h; done)
+      | (obtain rfl := Option.some.inj h; exact hf)
+
 /-- what one `recv_any` iteration does to the caller's ghost view, in terms of the value it returns -/
 theorem recvAny_spec (c : Cfg) (st st' : State) (h : step c st .recvAny = some st') :
     st.partialMsg = none ∧ st'.outs = st.outs ++ (anyOut c st).toList ∧ st'.r.closed = st.r.closed ∧
